@@ -32,7 +32,7 @@ P = {
    text="Prior states are the states reached by the C13 breadth-first explorer (all 13 protocol states, half-finished transfers, other types) and by abandoning real controller calls at every message index; from each the real Sign configures and sends page lists to the real VirtualSign, and the monitor checks the postconditions of the statement on the sign's accessors.",
    note="Trusted: VirtualSign accessors; forged blocks (genuine id, other dims) are outside the contract clause."),
  "C09": dict(cat="exploration", sec="4/C09", tech="runtime monitoring: online trace automaton over the recorded bus log",
-   text="A recording bus logs every message the real controller emits for many types/addresses/page lists/retry patterns; a trace checker verifies request-ack-before-data, per-item offsets 0,16,32.., chunk sizes, concatenation == item bytes, count == chunks since the request, query right after count, the config block == the type's block, and nothing of a transfer after a request that was NOT acknowledged (on attempts 1, 2 and 3).",
+   text="A recording bus logs every message the real controller emits for many types/addresses/page lists/retry patterns; a trace checker verifies request-ack-before-data, per-item offsets 0,16,32.., chunk sizes, concatenation == item bytes, count == chunks since the request, query right after count, the config block == the type's block, and nothing of a transfer after a request that was NOT acknowledged (on attempts 1, 2 and 3). The same predicates are applied to calls made with a Sign object that has already performed another call (succeeded or given up; often the same pages again).",
    note="Trusted: the trace automaton; the harness's transcription of the 11 blocks."),
  "C10": dict(cat="fault_enumeration", sec="4/C10", tech="runtime monitoring: lockstep reference protocol machine inside an adversarial scripted bus, exhaustive reply-script DFS",
    text="Every reply script over a 44-symbol alphabet is enumerated depth-first to the natural end of each controller operation (polling bounded); at every step the message the real controller emits and its final outcome are compared with an independent flat-state-machine model of the documented protocol. The same enumeration is repeated on Sign objects that have already performed one of 20 canned earlier calls (successful, given up after three failures, abandoned on a bus error, flip-style query unanswered, ...), each later call against a fresh reference machine, so that nothing a call leaves behind in the object can stand in for a reply.",
@@ -59,7 +59,7 @@ P = {
    text="Operation sequences run once through Sign->SerialSignBus->byte duplex->Odk->VirtualSignBus and once directly; success/failure, flip style and all sign observables must agree after every operation; the bridge log must forward exactly the decoded frames, consume exactly the line that was sent and write back exactly when the bus replied; raw messages (incl. 255-byte frames) go down both paths; undecodable lines give Communication errors without touching the bus.",
    note="Trusted: the in-process duplex; only success/failure (not error class) compared across paths."),
  "C18": dict(cat="exploration", sec="4/C18", tech="runtime monitoring: monotonic timestamps at the port boundary; lower bounds on paced gaps, min-over-trials upper bound on unpaced gaps",
-   text="Instant timestamps taken inside the port's read/write and around process_message give the gaps; paced exchanges (data chunks; in-progress reports received in answer to ANY request kind) must show >=30 ms / >=100 ms on every trial; every other sent kind and every other (request, reply) pair must show a minimum over trials below 30 ms; a data chunk after which the port's flush fails must still be followed by 30 ms of silence. Lower bounds cannot false-alarm; the upper side uses min over repeated trials.",
+   text="Instant timestamps taken inside the port's read/write and around process_message give the gaps; paced exchanges (data chunks; in-progress reports received in answer to ANY request kind) must show >=30 ms / >=100 ms on every trial; every other sent kind and every other (request, reply) pair must show a minimum over trials below 30 ms; a data chunk after which the port's flush fails must still be followed by 30 ms of silence. Random sessions of 3-6 mixed messages through one bus instance check that pacing depends on the current exchange only. Lower bounds cannot false-alarm; the upper side uses min over repeated trials.",
    note="Trusted: std Instant monotonicity and thread::sleep never returning early."),
  "C19": dict(cat="exploration", sec="4/C19", tech="runtime monitoring: field-arithmetic oracle on all types + exhaustive (family,id) sweep + virtual sign as downstream consumer",
    text="All 11 types: block length, round trip, field arithmetic vs dimensions, and a virtual sign configured with the block — freshly, after a failed configuration as any other type, or after another block in the same transfer — accepts exactly a page of dimensions(). All 65536 (family,id) pairs x tails and all lengths 0..=40 are decoded under catch_unwind and compared with the harness's own list.",
